@@ -126,7 +126,11 @@ def _try(job):
         c = sh(["/venv/bin/python", "-m", "py_compile", path])
         if c.returncode != 0:
             return None
-        t = sh(["/venv/bin/python", "-m", "pytest", "-q", "-p", "no:cacheprovider", "--timeout=120", "--continue-on-collection-errors"], cwd=_WT)
+        try:
+            # a mutant that loops during collection is not stopped by pytest-timeout: the whole run is bounded
+            t = sh(["/venv/bin/python", "-m", "pytest", "-q", "-p", "no:cacheprovider", "--timeout=20", "--continue-on-collection-errors"], cwd=_WT, timeout=150)
+        except subprocess.TimeoutExpired:
+            return None
         m = re.search(r"(\d+) passed", t.stdout)
         if m and int(m.group(1)) == 352 and "failed" not in t.stdout.splitlines()[-1]:
             d = sh(["git", "-C", _WT, "diff"])
